@@ -159,6 +159,38 @@ def gen_case(rng, idx):
                 sa_steps=rng.choice([0, 50, 200, 400]))
 
 
+def enumerate_small():
+    """Thorough tier: every problem of a small finite family -- a 2x1 machine (second chip possibly dead),
+    one resource with capacities in {0,1,2} per chip (the second given as a resource exception), up to 3
+    vertices with demands in {0,1,2}, optionally a same-chip pair, a location constraint on the first vertex,
+    a global reservation of one unit."""
+    import itertools
+    cases = []
+    idx = 0
+    for c0, c1, dead in itertools.product([0, 1, 2], [0, 1, 2], [False, True]):
+        for n in range(0, 4):
+            for dem in itertools.product([0, 1, 2], repeat=n):
+                for same, loc, resv in itertools.product([False, True], [None, (0, 0), (1, 0)], [False, True]):
+                    if (same and n < 2) or (loc is not None and n < 1):
+                        continue
+                    cons = []
+                    if same:
+                        cons.append(["same", [1, 0]])
+                    if loc is not None:
+                        cons.append(["loc", 0, list(loc)])
+                    if resv:
+                        cons.append(["reserve", 0, 0, 1, None])
+                    idx += 1
+                    cases.append(dict(
+                        machine=dict(w=2, h=1, res=[[0, c0]], exc=[[[1, 0], [[0, c1]]]],
+                                     dead=[[1, 0]] if dead else [], dead_links=[]),
+                        vres=[[v, [[0, d]]] for v, d in enumerate(dem)],
+                        nets=[[0, list(range(1, n)), 1]] if n >= 2 else [],
+                        constraints=cons, vorder=None, corder=None, effort=0.1, seed=idx, mode="enumerated",
+                        idx=100000 + idx, sa_steps=0))
+    return cases
+
+
 # ------------------------------------------------------------------ independent oracle
 class Problem(object):
     """The problem as the property sees it, recomputed from the JSON description only."""
@@ -308,7 +340,7 @@ def oracle(chk, c, r):
     ov = orders_valid(c, prob)
     for cfg, o in r["out"].items():
         chk.count("outcome:%s:%s" % (cfg, o[0] if o[0] != "fail" else "fail%d" % o[1]))
-        if cfg == "seq_custom" and not ov:
+        if (cfg == "seq_custom" and not ov) or o[0] == "skipped":
             continue
         replay = dict(case=c, config=cfg, observed=o)
         if o[0] == "hang":
@@ -404,6 +436,13 @@ Definition sa_replay (vr : vresources) (m : pmachine) (cs : list pconstr) (lp vp
       end
   | _ => false
   end.
+Fixpoint nodup_chips (l : list chip) : bool :=
+  match l with [] => true | c :: t => negb (chip_mem c t) && nodup_chips t end.
+(* boolean forms of the premises of the theorems on caller-supplied / wrapper-computed orders *)
+Definition order_v_okb (vr : vresources) (vo : list vertex) : bool :=
+  nodupb vo && forallb (fun v => zmem v (map fst vr)) vo && forallb (fun v => zmem v vo) (map fst vr).
+Definition order_c_okb (m : pmachine) (co : list chip) : bool :=
+  nodup_chips (filter (live m) co) && forallb (fun c => chip_mem c co) (raster m).
 Definition NOV : option (list vertex) := None.
 Definition NOC : option (list chip) := None.
 """
@@ -419,7 +458,7 @@ def model_exprs(c, r):
 
     def corr(cfg, model):
         o = out.get(cfg)
-        if o is not None and o[0] != "hang":
+        if o is not None and o[0] not in ("hang", "skipped"):
             ex.append(("corr:" + cfg, "res_eqb (%s) %s" % (model, coq_result(o))))
     corr("seq", "seq_place vr m cs NOV NOC")
     if "seq_custom" in out:
@@ -435,6 +474,13 @@ def model_exprs(c, r):
             corr("hilbert", "seq_place vr m cs (Some %s) (Some (hilbert_chip_order m))" % zl(aux["hil_v"]))
     if aux.get("rcm_v") is not None and aux.get("rcm_c") is not None:
         corr("rcm", "seq_place vr m cs (Some %s) (Some %s)" % (zl(aux["rcm_v"]), cl(aux["rcm_c"])))
+    # the orders computed by the real wrappers satisfy the premises of the theorems (per instance)
+    for name in ("bf_v", "hil_v", "rcm_v"):
+        if aux.get(name) is not None:
+            ex.append(("premise:%s lists every vertex exactly once" % name, "order_v_okb vr %s" % zl(aux[name])))
+    for name in ("hil_c", "rcm_c"):
+        if aux.get(name) is not None:
+            ex.append(("premise:%s lists every working chip exactly once" % name, "order_c_okb m %s" % cl(aux[name])))
     corr("rand", "rand_place vr m cs %s" % nl(aux["rand_picks"]))
     sh = aux.get("sa_shuffles") or []
     if len(sh) in (0, 2):
@@ -467,19 +513,26 @@ def coq_case(c, r):
 # ------------------------------------------------------------------ the check
 def run(chk, args):
     chk.trusted += ["CPython dict iteration order (insertion order) is mirrored by association lists",
-                    "rig_c_sa (compiled C annealing kernel, third party, outside /repo): not modelled; its outputs are "
-                    "only validated per instance by the verified checker (V)",
-                    "the float-valued temperature schedule of sa/algorithm.py is not modelled (termination of the anneal "
-                    "is observed per case under an alarm, not proved)",
-                    "set iteration order inside breadth_first_vertex_order / rcm orders is not modelled: the orders they "
-                    "produce are recorded and given to the model; the theorems hold for any order"]
+                    "rig_c_sa (compiled C annealing kernel, third party, outside /repo; the default kernel here): not "
+                    "modelled; its outputs are only validated per instance by the verified checker (V)",
+                    "the float-valued temperature schedule of sa/algorithm.py (temperature, distance limit, step counts, "
+                    "termination test) is not modelled: the SA theorems hold for every sequence of draws and every number "
+                    "of steps; termination of the anneal is observed per case under an alarm, not proved",
+                    "set iteration order inside breadth_first_vertex_order / rcm_vertex_order / rcm_chip_order is not "
+                    "modelled: the orders they produce are recorded by wrappers and given to the model; the theorems hold "
+                    "for any vertex order listing the vertices and any chip order (completeness: each working chip once)",
+                    "random choices (rand.place sample, SA shuffles, kernel draws and accept decisions) are explicit oracle "
+                    "inputs of the model; the harness scripts / observes them from outside, no edit of /repo"]
     chk.assumptions += ["vertices are non-negative integers, resources integers, quantities Python ints >= 0",
                         "every resource a vertex or a reservation mentions is a key of chip_resources, and every "
                         "chip_resource_exceptions entry has exactly the keys of chip_resources (documented)",
                         "constraints mention only vertices of the problem; location / same-chip constraints are consistent "
-                        "(one chip per vertex and per group)",
+                        "(some assignment of one chip per vertex satisfies all of them)",
                         "a caller-supplied vertex_order lists every vertex exactly once, a chip_order every working chip "
-                        "exactly once (documented)"]
+                        "exactly once (documented); soundness needs only that the vertex order covers the vertices",
+                        "completeness clause: reservations are ranges (start <= stop) on working chips that fit the chip; at "
+                        "least one working chip when there are vertices; a capacity left negative by reservations counts as 0 "
+                        "in the feasibility clause (the empty placement is feasible)"]
     chk.regenerate(UNITS)
     built = chk.prove()
     if args.replay:
@@ -487,14 +540,16 @@ def run(chk, args):
         cases = [f["replay"]["case"] for f in rp.get("failures", []) + rp.get("no_longer_checks", [])
                  if "case" in f.get("replay", {})]
     else:
-        n = 1000 if chk.tier == "quick" else 20000
+        n = 1000 if chk.tier == "quick" else 12000
         cases = [gen_case(chk.rng, i) for i in range(n)]
+        if chk.tier != "quick":
+            cases += enumerate_small()
         corpus = os.path.join(lib.VERIF, "corpus", "C02.json")
         if os.path.exists(corpus):
             cases = json.load(open(corpus)) + cases
     # implementation
     size = 25 if chk.tier == "quick" else 250
-    chunks = [dict(cases=cases[i:i + size], per_cfg_s=10) for i in range(0, len(cases), size)]
+    chunks = [dict(cases=cases[i:i + size], per_cfg_s=20) for i in range(0, len(cases), size)]
     results = [r for part in chk.impl_parallel("impl_c02.py", chunks, timeout=3000) for r in part]
     ran = {}
     for c, r in zip(cases, results):
@@ -537,7 +592,10 @@ def run(chk, args):
                     if bad > 5:
                         continue
                     cfg = lab.split(":", 1)[1]
-                    if lab.startswith("valid:"):
+                    if lab.startswith("premise:"):
+                        chk.oblige(lab, False, "false on case %d" % c.get("idx", -1))
+                        chk.broken[-1]["replay"] = dict(case=c, aux=r["aux"])
+                    elif lab.startswith("valid:"):
                         # the verified checker rejects an output the implementation returned; the Python oracle
                         # above has (or has not) flagged it independently
                         chk.oblige("validator accepts the placement returned by " + cfg, False,
